@@ -275,7 +275,10 @@ package dns
 //@   exit short: !called("ParseUint") ==> len(token) < 5 && !ret1
 //@ func locCheckNorth [C07]
 //@ func locCheckEast [C07]
-//@ func stringToNodeID [C07]
+// RFC 6742 2.4.1: sixteen hexadecimal digits, i.e. any 64-bit value (what String() prints for values of 2^63 and more too)
+//@ func stringToNodeID [C07 C05]
+//@   callsite "ParseUint" full: arg1 == 16 && arg2 == 64 [C05]
+//@   exit unsigned: ret1 == nil ==> called("ParseUint") && ret0 == callres("ParseUint", 0) [C05]
 //@ func parseAddrHostUnion [C07]
 // a $GENERATE modifier pads to at most 255 characters, so the text a short line expands to stays bounded
 //@ func modToPrintf [C07 C06]
